@@ -103,6 +103,7 @@ def run_case(case):
             return None, False
         res.c("calls_metered")
         res.m("back_edges_per_call", used)
+        res.m(f"back_edges:n={ref.n:02d}", used)
         res.m("ratio_to_budget_x1e6", int(1e6 * used / B))
         res.m(f"ratio_x1e6:{label.split('(')[0]}", int(1e6 * used / B))
         return r, True
